@@ -6,6 +6,20 @@ VERIF = Path(__file__).resolve().parent.parent
 ALL = [f"C{i:02d}" for i in range(1, 20)]
 
 CLAIMED = {
+    "C15": dict(
+        text="api/Pdk.tla: (a) the PDK registry as a state machine (register, set_default, compile by default / name / module) - TLC enumerates "
+             "every history of 3 operations over 3 PDK modules, each replayed in a fresh process with stand-in modules, Trace_PdkReg checks "
+             "which PDK every compile reached; (b) the compile contract on packages exported before, after one and after two compilations "
+             "(hierarchy, instance names, every connection unchanged; only technology-mapped instances re-targeted; untouched instances "
+             "identical; compile idempotent; compiled package well-formed by Package!PkgFaults and netlistable); (c) device selection by model "
+             "name or by type/family/threshold over the device tables read from the running sample / Sky130 / GF180 / ASAP7 packages, a "
+             "satisfying device must have the generic primitive's terminals, an unsatisfiable request must be refused with a descriptive error. "
+             "Every table entry x every generic primitive of its kind by model, MOS triples by parameters, four ways of invoking compile; "
+             "a sample (thorough: all) of the ~3,100 logic cells instantiated and netlisted.",
+        note="Trusted: table normalisation, design builder and projections in harness/props/c15.py, TLC, vlsirtools netlisters. Device-name patterns "
+             "are not checked against a list in the spec (only that the device is the table's entry for the request). Parameter translation "
+             "(sizes, multipliers) is exercised but only checked through idempotence and well-formedness.",
+        ref="6 C15", technique="TLA+ registry state machine (MC + replay) and compile-contract spec decided by TLC on recorded packages"),
     "C12": dict(
         text="sched/Repro.tla models the mechanism - passes visit hash-ordered back-reference sets in an order the environment chooses - and TLC "
              "shows the re-connection step is confluent iff the visits are ordered (the unordered configuration yields TLC's counterexample, "
@@ -197,7 +211,7 @@ CLAIMED = {
         ref="6 C18", technique="TLA+ spec (Namespace) + TLC-enumerated histories replayed in code + TLC trace validation"),
 }
 
-PENDING_REASON = "check not built yet in this round (planned in DESIGN.md section 6); not claimed until its machinery exists"
+PENDING_REASON = "no check built for this property"
 
 
 def main():
